@@ -646,3 +646,47 @@ def error_window(ck, F, rule="TABLE-errors"):
         ck.ob(rule, "consume_error|matches against the whole rest of the input", ok,
               "consume_error compares error names with a window whose end comes from %s: a localized error name longer than the window "
               "is never recognised" % sorted(map(str, sr)), f, l)
+
+
+# ------------------------------------------------------------------------------------------------ NAME-CASE (C17, C32)
+NAME_CASE_EXCEPT = {
+    ("Model::update_defined_name", "ne"): "`new_name != df.name` decides whether the spelling changed (then every formula is rewritten with the new "
+                                          "spelling); an exact comparison is what that question needs",
+}
+
+
+def defined_name_case(ck, F, rule="NAME-CASE"):
+    """Defined names are one name whatever their letter case: the evaluator keys them by `name.to_lowercase()`.  So every
+    equality test in the crate that involves a stored DefinedName.name either folds the case of both sides or is
+    eq_ignore_ascii_case -- a test by exact spelling lets `RATE` and `Rate` coexist where the lookup table has one slot."""
+    from rules_attr import sources
+    DN = "ironcalc_base::types::DefinedName"
+    FOLD = ("to_lowercase", "to_uppercase", "to_ascii_lowercase", "to_ascii_uppercase")
+    n = 0
+    for path in sorted(F.body_paths()):
+        h = F.heads[path]
+        if h["crate"] != "ironcalc_base" or "/test" in h["file"] or h.get("impl_trait") or "DefinedName" not in F._raw.get(path, ""):
+            continue
+        b = F.body(path)
+        qn = b.qname.split("::", 2)[-1]
+        root = qn.split("::{closure")[0]
+        k = 0
+        for bi, t in b.calls():
+            last = (b.callee_q(t) or "").rsplit("::", 1)[-1]
+            if last not in ("eq", "ne", "eq_ignore_ascii_case") or len(t["args"]) < 2:
+                continue
+            srs = [sources(b, a) for a in t["args"][:2]]
+            if not any(any(x[0] == "field" and x[1] == DN and x[2] == "name" for x in sr) for sr in srs):
+                continue
+            folded = all(any(x[0] == "call" and x[1].rsplit("::", 1)[-1] in FOLD for x in sr) for sr in srs)
+            ok = last == "eq_ignore_ascii_case" or folded
+            k += 1
+            n += 1
+            f, l = b.loc(bi)
+            if not ok and (root, last) in NAME_CASE_EXCEPT:
+                ck.ob(rule, "%s|%s#%d" % (root, last, k), True, NAME_CASE_EXCEPT[(root, last)], nontrivial=False)
+                continue
+            ck.ob(rule, "%s|%s#%d" % (root, last, k), ok,
+                  "%s compares a stored defined name by exact spelling (%s): names that differ only in letter case are treated as different "
+                  "here but share one entry in the evaluator's table (keyed by to_lowercase)" % (root, last), f, l, sample={"fn": root, "op": last})
+    ck.ob(rule, "sites", n >= 5, "only %d comparisons of DefinedName.name found (anchor lost?)" % n)
